@@ -258,4 +258,48 @@ theorem rel_run (n i : Nat) (ops : List Op) (hwf : HistWF ops) (s : State) (sp g
       simp only [specRun]
       exact ih hwf2 _ _ _ hstep
 
+/-- every store of the history uses a NUL-free key (needed only for the trigger *set* a fetch reports:
+the key travels back as one of the entry's trigger names) -/
+def KeysNulFree (ops : List Op) : Prop :=
+  ∀ op ∈ ops, match op with
+    | .store _ _ k _ _ _ => (0 : UInt8) ∉ k
+    | _ => True
+
+def NulFreeMap (g : C07.Spec) : Prop := ∀ k e, g k = some e → ∀ t ∈ e.trigs, (0 : UInt8) ∉ t
+
+theorem ideal_nulfree (ops : List Op) (hwf : HistWF ops) (hk : KeysNulFree ops) (g : C07.Spec) (hg : NulFreeMap g) :
+    NulFreeMap ((ops.map toSOp).foldl Spec.ideal g) := by
+  induction ops generalizing g with
+  | nil => exact hg
+  | cons op ops ih =>
+    simp only [List.map_cons, List.foldl_cons]
+    apply ih (fun o ho => hwf o (by simp [ho])) (fun o ho => hk o (by simp [ho]))
+    cases op with
+    | store c nowS k v trigs d =>
+      have hw : Spec.WFwire k v trigs d := hwf (.store c nowS k v trigs d) (by simp)
+      have hkk : (0 : UInt8) ∉ k := hk (.store c nowS k v trigs d) (by simp)
+      intro k' e he t ht
+      simp only [toSOp, Spec.ideal, C07.Spec.insert] at he
+      split at he
+      · cases he
+        rcases mem_ownTrigs.mp ht with h1 | h1
+        · subst h1; exact hkk
+        · exact hw.trig_nul t h1
+      · exact hg k' e he t ht
+    | rise c t0 =>
+      intro k' e he t ht
+      simp only [toSOp, Spec.ideal, C07.Spec.rise] at he
+      cases hs : g k' with
+      | none => rw [hs] at he; cases he
+      | some e0 =>
+        rw [hs] at he
+        simp only at he
+        split at he
+        · cases he
+        · cases he; exact hg k' e hs t ht
+    | clear c => intro k' e he; simp [toSOp, Spec.ideal, C07.Spec.empty] at he
+    | fetch c a b k t => exact hg
+    | remove c k => exact hg
+    | stats c => exact hg
+
 end Cppcms.C10
